@@ -726,6 +726,7 @@ func run(cx *lib.Ctx) {
 	directedExprs(cx)
 	directedTwoMarks(cx)
 	directedGeneratedAttrs(cx)
+	directedWrappedSpecs(cx)
 	share := func(prefix string) {
 		d := res.Distribution
 		t := d[prefix+"same-result"] + d[prefix+"differ-marked"] + d[prefix+"differ-mark-lost"] + d[prefix+"skipped-error"]
